@@ -1,7 +1,9 @@
 package c15
 
 import (
+	"bufio"
 	"bytes"
+	"compress/gzip"
 	"errors"
 	"io"
 )
@@ -166,7 +168,7 @@ func clone(b []byte) []byte {
 }
 
 // kinds the byte-stream consumer documents, and kinds it does not.
-var bsDestSupported = []string{"readerfrom", "writer", "buffer", "binunm", "*string", "*[]byte", "*named-string", "*named-bytes", "*iface-string", "*iface-bytes"}
+var bsDestSupported = []string{"readerfrom", "writer", "buffer", "binunm", "*string", "*[]byte", "*named-string", "*named-bytes", "*iface-string", "*iface-bytes", "bufio-writer", "gzip-writer"}
 var bsDestOther = []string{"nil", "nil-*string", "nil-*[]byte", "nil-*named-string", "nil-*named-bytes", "nil-*struct", "nil-*iface",
 	"string", "[]byte", "int", "*int", "*struct", "*iface-nil", "*iface-int", "**string", "**[]byte", "map", "*map", "chan", "func", "*[]string", "*[]uint16", "*[4]byte"}
 
@@ -200,6 +202,24 @@ func mkDest(codec, kind string, pre []byte, o Script, bufsz int) (d dest, ok boo
 	case "buffer":
 		x := &bytes.Buffer{}
 		d.v, d.get = x, func() []byte { return x.Bytes() }
+	case "bufio-writer": // a buffering writer (it has Flush) over a plain writer
+		w := newWriter(o)
+		x := bufio.NewWriterSize(wDest{w}, 64)
+		d.v, d.sink = x, w
+		d.get = func() []byte { _ = x.Flush(); return w.buf }
+	case "gzip-writer": // a compressing writer (it has Flush and Close)
+		under := &bytes.Buffer{}
+		x := gzip.NewWriter(under)
+		d.v = x
+		d.get = func() []byte {
+			_ = x.Close()
+			zr, err := gzip.NewReader(bytes.NewReader(under.Bytes()))
+			if err != nil {
+				return nil
+			}
+			b, _ := io.ReadAll(zr)
+			return b
+		}
 	case "binunm":
 		x := &buDest{}
 		d.v, d.get = x, func() []byte { return x.stored }
